@@ -833,8 +833,10 @@ def _is_aot(n):
     return n[0] == "a" and len(n[1]) > 0 and all(x[0] == "t" for x in n[1])
 
 
-def render_doc(rng, tree, p_inline=0.25, p_dotted=0.2):
-    """tree must be a table; layout choices: inline / dotted / [header] / [[array of tables]]"""
+def render_doc(rng, tree, p_inline=0.25, p_dotted=0.2, p_subfirst=0.0):
+    """tree must be a table; layout choices: inline / dotted / [header] / [[array of tables]];
+    with probability p_subfirst a [table] that has [sub-tables] comes AFTER them (`[a.b]` ... `[a]`: the table `a`
+    exists as an implicit table when its own header is met and is re-opened; no rng is used for this when 0)"""
     lines = []
 
     def table(path, entries, header_needed, aot):
@@ -851,15 +853,23 @@ def render_doc(rng, tree, p_inline=0.25, p_dotted=0.2):
                 later.append((ks, n, True))
             else:
                 body.append("%s = %s" % (ks, render_inline(rng, n)))
-        if path and (header_needed or body or not later):
-            lines.append(("[[%s]]" if aot else "[%s]") % ".".join(path))
-        lines.extend(body)
+        sub_first = bool(p_subfirst) and bool(path) and not aot and bool(later) and rng.random() < p_subfirst
+
+        def own():
+            if path and (header_needed or body or not later or sub_first):
+                lines.append(("[[%s]]" if aot else "[%s]") % ".".join(path))
+            lines.extend(body)
+
+        if not sub_first:
+            own()
         for ks, n, is_aot in later:
             if is_aot:
                 for el in n[1]:
                     table(path + [ks], el[1], True, True)
             else:
                 table(path + [ks], n[1], False, False)
+        if sub_first:
+            own()
 
     table([], tree[1], False, False)
     nl = rng.choice(["\n", "\n", "\r\n"])
@@ -990,7 +1000,16 @@ class SerdeGen:
             return ("N", self.name(), ("s",))
         if not self.allow_unsupported:
             return ("s",)
-        return r.choice([("c",), ("int", "i32"), ("b",), ("O", ("s",)), ("int", "u64")])
+        # every other kind of key a Serialize impl can hand to KeySerializer / toml::value::SerializeMap (all refused, or
+        # accepted only where Value::try_from makes a string of it): measured source coverage (lib/coverage_run.py) showed that
+        # only bool / i32 / u64 / char / none of toml_edit/src/ser/key.rs were ever called
+        if r.random() < 0.45:
+            return r.choice([("c",), ("int", "i32"), ("b",), ("O", ("s",)), ("int", "u64")])
+        return r.choice([("int", r.choice(["i8", "i16", "i64", "i64", "u8", "u16", "u32"])), ("f32",), ("f64",), ("u",),
+                         ("Z", "UnitKey"), ("L", ("s",)), ("T", [("s",), ("s",)]), ("M", ("s",), ("s",)),
+                         ("S", "KeyRec", [("a", ("s",))]), ("P", "KeyPair", [("s",), ("s",)]),
+                         ("E", "KeyEnum", [("U", "u", None), ("N", "n", ("s",)), ("T", "t", [("s",), ("s",)]), ("S", "s", [("a", ("s",))])]),
+                         ("dt",)])
 
     def ty(self, depth=None):
         r = self.rng
